@@ -149,6 +149,32 @@ fn populate(sys: &mut Sys, rng: &mut Rng, nc: usize) {
     for id in 1..=2usize {
         sys.hadd(id, first_alg.0, first_alg.1);
     }
+    // hashers 3 and 4: relatives of that type - they share some of its parameters but not all
+    let (r1, r2) = relatives(first_alg.0, first_alg.1);
+    sys.hadd(3, r1.0, r1.1);
+    sys.hadd(4, r2.0, r2.1);
+}
+
+/// two types related to (alg, n): same compression function with the other output size / same output size with another state
+/// size (Skein) ; the sibling of the other word width / same state size with another output size (Skein)
+fn relatives(alg: &str, n: usize) -> ((&'static str, usize), (&'static str, usize)) {
+    match alg {
+        "Blake224" => (("Blake256", 0), ("Blake384", 0)),
+        "Blake256" => (("Blake224", 0), ("Blake512", 0)),
+        "Blake384" => (("Blake512", 0), ("Blake224", 0)),
+        "Blake512" => (("Blake384", 0), ("Blake256", 0)),
+        "Groestl224" => (("Groestl256", 0), ("Groestl384", 0)),
+        "Groestl256" => (("Groestl224", 0), ("Groestl512", 0)),
+        "Groestl384" => (("Groestl512", 0), ("Groestl224", 0)),
+        "Groestl512" => (("Groestl384", 0), ("Groestl256", 0)),
+        "Jh224" => (("Jh256", 0), ("Jh384", 0)),
+        "Jh256" => (("Jh224", 0), ("Jh512", 0)),
+        "Jh384" => (("Jh512", 0), ("Jh224", 0)),
+        "Jh512" => (("Jh384", 0), ("Jh256", 0)),
+        "Skein256" => (("Skein512", n), ("Skein256", 64)),
+        "Skein512" => (("Skein1024", n), ("Skein512", 32)),
+        _ => (("Skein256", n), ("Skein1024", 64)),
+    }
 }
 
 /// Schedules drawn by TLC from System.tla (spec -> impl): one line per behaviour, a JSON array of [op, instance, argument]
@@ -187,7 +213,7 @@ pub fn drive_interleave(out: &mut dyn std::io::Write, seed: u64, thorough: bool)
         let nc = 3 + rng.below(2) as usize;
         populate(&mut sys, &mut rng, nc);
         let extra = *rng.pick(&hashes::C08_ALGS);
-        sys.hadd(3, extra.0, extra.1);
+        sys.hadd(5, extra.0, extra.1);
         let steps = if thorough { 60 } else { 36 };
         for _ in 0..steps {
             if rng.below(2) == 0 {
@@ -216,7 +242,7 @@ pub fn drive_interleave(out: &mut dyn std::io::Write, seed: u64, thorough: bool)
                 }
                 let id = *rng.pick(&ids);
                 match rng.below(10) {
-                    0 if ids.len() < 5 => {
+                    0 if ids.len() < 7 => {
                         let dst = (1..=8).find(|d| !ids.contains(d)).unwrap();
                         sys.hclone(id, dst);
                     }
